@@ -131,25 +131,38 @@ def call(op, objs, args, entry="method"):
             _ac._fuseinfos.clear()
         return ()
     if op == "mode_ctx":
+        # "prebuilt": the manager objects are created BEFORE anything is entered (and, with "preset", before the default is
+        # changed by hand): what is restored on exit is the mode at ENTRY, whenever the manager was made
+        original = sr.get_default_tensordot_mode()
+        outer = inner = None
+        if a.get("prebuilt"):
+            outer = sr.default_tensordot_mode(a["mode"])
+            if "nested" in a:
+                inner = sr.default_tensordot_mode(a["nested"])
+        if "preset" in a:
+            sr.set_default_tensordot_mode(a["preset"])
         before = sr.get_default_tensordot_mode()
         inside = []
         try:
-            with sr.default_tensordot_mode(a["mode"]):
-                inside.append(sr.get_default_tensordot_mode())
-                if "nested" in a:
-                    try:
-                        with sr.default_tensordot_mode(a["nested"]):
-                            inside.append(sr.get_default_tensordot_mode())
-                            if a.get("raise_inner"):
-                                raise RuntimeError("inner")
-                    except RuntimeError:
-                        pass
+            try:
+                with (outer if outer is not None else sr.default_tensordot_mode(a["mode"])):
                     inside.append(sr.get_default_tensordot_mode())
-                if a.get("raise"):
-                    raise RuntimeError("boom")
-        except RuntimeError:
-            pass
-        after = sr.get_default_tensordot_mode()
+                    if "nested" in a:
+                        try:
+                            with (inner if inner is not None else sr.default_tensordot_mode(a["nested"])):
+                                inside.append(sr.get_default_tensordot_mode())
+                                if a.get("raise_inner"):
+                                    raise RuntimeError("inner")
+                        except RuntimeError:
+                            pass
+                        inside.append(sr.get_default_tensordot_mode())
+                    if a.get("raise"):
+                        raise RuntimeError("boom")
+            except RuntimeError:
+                pass
+            after = sr.get_default_tensordot_mode()
+        finally:
+            sr.set_default_tensordot_mode(original)
         return ({"t": "modes", "before": str(before), "inside": [str(m) for m in inside], "after": str(after)},)
     if op == "set_default_mode":
         sr.set_default_tensordot_mode(None if a["mode"] == "none" else a["mode"])
